@@ -27,7 +27,7 @@ from ..absint import (
     run_call,
 )
 from ..model import AnalysisError, dotted, walk_own
-from ..tablekit import decide, stub, where_of
+from ..tablekit import decide, init_literal_attrs, stub, where_of
 
 EXPLANATION = (
     "Static decision of C01 from the syntax trees of cutplace/ranges.py and _tools.py: (1) the three documented "
@@ -129,6 +129,54 @@ def _item_shapes(ch, index):
     return shape, lower, upper
 
 
+def _rounded(probe):
+    """A probe that went through round() / quantize() is another number: nothing relates it to the limits."""
+    result = Sym("rounded(%s)" % probe.name)
+    result.is_decimal = getattr(probe, "is_decimal", False)
+    result.methods = getattr(probe, "methods", None)
+    return result
+
+
+def _round_hook(interp, args, kwargs):
+    if args and isinstance(args[0], Sym):
+        return _rounded(args[0])
+    raise Undecided("round(%r)" % (args[0] if args else None,))
+
+
+def _validate_sequence_table(ctx, qualname, class_qualname, decimal=False):
+    """validate() is an observer: the verdict on a value must not depend on the values validated before on the same
+    range object.  Two closed items l0<=u0<l1<=u1, two probes one after the other."""
+    model = ctx.model
+    cls = model.cls(class_qualname)
+
+    def cell(ch):
+        items = [(Sym("l0"), Sym("u0")), (Sym("l1"), Sym("u1"))]
+        probes = [Sym("v"), Sym("w")]
+        if decimal:
+            for probe in probes:
+                probe.is_decimal = True
+                probe.methods = {"is_nan": stub(lambda i, a, k: False), "is_finite": stub(lambda i, a, k: True)}
+        interp = Interp(model, ch, externals={"builtins.round": _round_hook})
+        for (lower, upper) in items:
+            interp.order.declare(("s", lower.key()), "<=", ("s", upper.key()))
+        interp.order.declare(("s", "u0"), "<", ("s", "l1"))
+        attrs = init_literal_attrs(model, cls)
+        attrs.update({"_items": list(items), "_precision": 0, "_scale": 0})
+        self_obj = Obj(cls, attrs, label="range")
+        verdicts = []
+        for probe in probes:
+            try:
+                interp.call_function(model.func(qualname), [self_obj, "name", probe], {}, None)
+                verdicts.append("accept")
+            except AbsRaise as raised:
+                verdicts.append("raise " + exc_name(raised.value))
+        expected = ["accept" if _membership_oracle(interp, items, probe) else "raise RangeValueError" for probe in probes]
+        facts = ", ".join("%s%s%s" % (a[1], rel, b[1]) for a, rel, b in interp.order.facts)
+        return ("validate(v) then validate(w) order[%s]" % facts, tuple(verdicts), tuple(expected))
+
+    decide(ctx, "O1.3", "membership is independent of earlier calls", qualname, cell, min_cells=9)
+
+
 def _validate_table(ctx, qualname, class_qualname, item_counts, decimal=False):
     model = ctx.model
     cls = model.cls(class_qualname)
@@ -159,16 +207,19 @@ def _validate_table(ctx, qualname, class_qualname, item_counts, decimal=False):
             def is_finite(interp_, args, kwargs):
                 return not not_a_number
 
-            probe.methods = {"is_nan": is_nan, "is_finite": is_finite}
+            probe.methods = {"is_nan": is_nan, "is_finite": is_finite, "quantize": stub(lambda i, a, k: _rounded(probe)),
+                             "__round__": stub(lambda i, a, k: _rounded(probe)), "normalize": stub(lambda i, a, k: probe)}
 
         def setup(interp):
             for lower, upper in items:
                 if lower is not None and upper is not None:
                     interp.order.declare(("s", lower.key()), "<=", ("s", upper.key()))
-            self_obj = Obj(cls, {"_items": items_value, "_precision": 0, "_scale": 0}, label="range")
+            attrs = init_literal_attrs(model, cls)
+            attrs.update({"_items": items_value, "_precision": 0, "_scale": 0})
+            self_obj = Obj(cls, attrs, label="range")
             return [self_obj, "name", probe], {}
 
-        interp, outcome = run_call(model, ch, qualname, None, setup=setup)
+        interp, outcome = run_call(model, ch, qualname, None, setup=setup, externals={"builtins.round": _round_hook})
         if outcome[0] == "raise":
             actual = "raise " + exc_name(outcome[1])
         else:
@@ -212,11 +263,13 @@ def _item_contains_table(ctx):
 
 
 def rule_membership(ctx):
-    ctx.res.minimum("O1.3", 3)
+    ctx.res.minimum("O1.3", 5)
     counts = [None, 1, 2] + ([3] if ctx.thorough else [])
     _validate_table(ctx, RANGE + ".validate", RANGE, counts)
     _validate_table(ctx, DECIMAL_RANGE + ".validate", DECIMAL_RANGE, counts, decimal=True)
     _item_contains_table(ctx)
+    _validate_sequence_table(ctx, RANGE + ".validate", RANGE)
+    _validate_sequence_table(ctx, DECIMAL_RANGE + ".validate", DECIMAL_RANGE, decimal=True)
     # SIBLING side condition: the Decimal probe is converted exactly once, through decimal.Decimal, and a
     # conversion failure becomes RangeValueError.
     info = ctx.model.func(DECIMAL_RANGE + ".validate")
@@ -244,15 +297,25 @@ class TokText(AText):
 class DescriptionText(AText):
     """The abstract description: rewriting it (str.replace, regex substitution) yields an abstract description."""
 
-    def __init__(self):
-        AText.__init__(self, AText.TEXT, "description")
+    def __init__(self, folded=False):
+        AText.__init__(self, AText.TEXT, "description" + (" (case-folded)" if folded else ""))
         text = self
+        self.folded = folded
 
         @stub
         def replace(interp, args, kwargs):
             return text
 
-        self.methods = {"replace": replace}
+        @stub
+        def fold(interp, args, kwargs):
+            # names and (hexadecimal) numbers mean the same in any case, a quoted character does not
+            return DescriptionText(folded=True)
+
+        @stub
+        def strip(interp, args, kwargs):
+            return text
+
+        self.methods = {"replace": replace, "lower": fold, "upper": fold, "casefold": fold, "swapcase": fold, "strip": strip}
 
 
 def _resub_hook(interp, args, kwargs):
@@ -398,6 +461,9 @@ def constructor_table(ctx, rule, class_qualname, max_tokens, mode="wellformed", 
                     symbol.is_decimal = True
                 text = TokText(symbol.name)
                 text.symbol = symbol
+                if kind == "STRING" and folded[0]:
+                    # the quoted character was case-folded before it was read: its code is another number
+                    text.symbol = Sym("casefolded(%s)" % symbol.name)
             elif kind == "HYPHEN":
                 text = "-"
             elif kind == "COMMA":
@@ -411,8 +477,11 @@ def constructor_table(ctx, rule, class_qualname, max_tokens, mode="wellformed", 
             produced.append((kind, symbol))
             return (type_code, text, (1, index), (1, index + 1), "")
 
+        folded = [False]
+
         @stub
         def tokens_stub(interp, args, kwargs):
+            folded[0] = bool(args and isinstance(args[0], DescriptionText) and args[0].folded)
             return AbsIter(produce, "tokens")
 
         def limit_stub(expected_kind):
@@ -613,7 +682,16 @@ def rule_limit_spellings(ctx):
         unescaped = AText(AText.TEXT, "unescaped")
         code_of_body, code_of_unescaped = Sym("code(body)"), Sym("code(unescaped)")
         quoted = AText(AText.TEXT, "quoted")
-        quoted.methods = {}
+        # the text between the quotes may itself begin or end with (an escaped) quote character, so removing "all
+        # quote characters at both ends" is a different text than removing exactly the first and last character
+        overstripped = AText(AText.TEXT, "quoted.strip(quote)")
+        overstripped.methods = {"encode": stub(lambda i, a, k: (_ for _ in ()).throw(Undecided("over-stripped text used")))}
+
+        @stub
+        def strip_method(interp, args, kwargs):
+            return overstripped
+
+        quoted.methods = {"strip": strip_method, "lstrip": strip_method, "rstrip": strip_method}
 
         def text_subscript(interp, args, kwargs):
             text, index = args
@@ -631,6 +709,8 @@ def rule_limit_spellings(ctx):
                 return 1 if body_length == "one" else 2
             if text is unescaped:
                 return 1 if unescaped_length == "one" else 2
+            if text is overstripped:
+                return 1
             raise Undecided("len of %r" % (text,))
 
         @stub
@@ -650,11 +730,15 @@ def rule_limit_spellings(ctx):
 
         body.methods = {"encode": encode}
 
+        code_of_overstripped = Sym("code(text with all edge quotes removed)")
+
         def ord_hook(interp, args, kwargs):
             if args[0] is body and body_length == "one":
                 return code_of_body
             if args[0] is unescaped and unescaped_length == "one":
                 return code_of_unescaped
+            if args[0] is overstripped:
+                return code_of_overstripped
             raise Undecided("ord(%r)" % (args[0],))
 
         interp, outcome = run_call(
@@ -664,7 +748,8 @@ def rule_limit_spellings(ctx):
         if outcome[0] == "raise":
             actual = "raise " + exc_name(outcome[1])
         else:
-            actual = {id(code_of_body): "code of the character", id(code_of_unescaped): "code of the un-escaped text"}.get(id(outcome[1]), repr(outcome[1]))
+            actual = {id(code_of_body): "code of the character", id(code_of_unescaped): "code of the un-escaped text",
+                      id(code_of_overstripped): "code of the text with ALL quote characters at its ends removed"}.get(id(outcome[1]), repr(outcome[1]))
         # one character between the quotes denotes itself (un-escaping a non-ASCII character through Latin-1 would
         # change it); longer text is un-escaped first and must then be one character
         if body_length == "one":
